@@ -26,7 +26,15 @@ Fixpoint exec_segs (c : @chain FX) (segs : list (@loadexpr FX * list (@sop FX)))
   | (l, ops) :: segs' => st1 <- exec c (eval_load l) ops st ;; exec_segs c segs' st1
   end.
 
-Definition fu_eqb (q : fqty) (x : fu) : bool := fbits_eq (qv q) (fst x) && String.eqb (qu q) (snd x).
+(** two comparison modes: bit for bit ([tol = false]), or within 1e-9 relative ([tol = true]: used only to CLASSIFY a disagreement
+    as rounding-level, never to accept one silently) *)
+Definition f_close (x y : float) : bool :=
+  fbits_eq x y || PrimFloat.leb (PrimFloat.abs (PrimFloat.sub x y))
+                                (PrimFloat.add (PrimFloat.mul 0x1.12e0be826d695p-30 (PrimFloat.add (PrimFloat.abs x) (PrimFloat.abs y))) 0x1p-1000).
+Section Mode.
+Variable tol : bool.
+Definition f_eq (x y : float) : bool := if tol then f_close x y else fbits_eq x y.
+Definition fu_eqb (q : fqty) (x : fu) : bool := f_eq (qv q) (fst x) && String.eqb (qu q) (snd x).
 Fixpoint fus_eqb (l : list fqty) (x : list fu) : bool :=
   match l, x with [], [] => true | q :: l', y :: x' => fu_eqb q y && fus_eqb l' x' | _, _ => false end.
 Definition last_fu_eqb (l : list fqty) (x : list fu) : bool :=
@@ -40,7 +48,7 @@ Definition row_code (t : fqty) (s : @snap FX) (r : row) : N :=
   if negb (last_fu_eqb (s_spd s) (r_spd r)) then 23 else
   if negb (fus_eqb (s_spd s) (r_spd r)) then 3 else
   if negb (fus_eqb (s_ltq s) (r_ltq r)) then 7 else
-  if negb (fbits_eq (s_pwm s) (r_pwm r)) then 8 else
+  if negb (f_eq (s_pwm s) (r_pwm r)) then 8 else
   if negb (fus_eqb (s_dtq s) (r_dtq r)) then 6 else
   if negb (fus_eqb (s_tq s) (r_tq r)) then 5 else
   if negb (last_fu_eqb (s_acc s) (r_acc r)) then 24 else
@@ -161,10 +169,18 @@ Definition case_code (k : scase) : N * N :=
           end
       end
   end.
+End Mode.
+
+(** the code reported for a scenario: the bit-for-bit comparison decides whether there is a disagreement; when there is one in a recorded
+    FIELD (codes 1..9, 22..24) and the whole scenario agrees within 1e-9 relative, 100 is added to the code (rounding-level disagreement) *)
+Definition is_field (c : N) : bool := (N.leb 1 c && N.leb c 9) || (N.leb 22 c && N.leb c 24).
+Definition case_code2 (k : scase) : N * N :=
+  let c := case_code false k in
+  if is_field (fst c) then (if N.eqb (fst (case_code true k)) 0 then (N.add 100 (fst c), snd c) else c) else c.
 Fixpoint failing_from (i : N) (l : list scase) : list (N * (N * N)) :=
   match l with
   | [] => []
-  | k :: l' => let c := case_code k in
+  | k :: l' => let c := case_code2 k in
               if N.eqb (fst c) 0 then failing_from (N.succ i) l' else (i, c) :: failing_from (N.succ i) l'
   end.
 Definition failing (l : list scase) : list (N * (N * N)) := failing_from 0 l.
@@ -192,8 +208,11 @@ Definition mcase_code (k : mcase) : N :=
   let r := (d <- motor_torque (mc_motor k) (mc_spd k) (mc_pwm k) ;; c <- motor_current (mc_motor k) d (mc_pwm k) ;; Ok (d, c)) in
   match r, mc_exp k with
   | Ok (d, c), MOk T cur =>
-      if negb (fu_eqb d T) then 6
-      else if match c, cur with None, None => true | Some q, Some x => fu_eqb q x | _, _ => false end then 0 else 9
+      let cmp (tol : bool) : N :=
+        if negb (fu_eqb tol d T) then 6%N
+        else if match c, cur with None, None => true | Some q, Some x => fu_eqb tol q x | _, _ => false end then 0%N else 9%N in
+      let c0 := cmp false in
+      if N.eqb c0 0 then 0 else if N.eqb (cmp true) 0 then N.add 100 c0 else c0
   | Err e, MErr e' => if exn_eqb e e' then 0 else 12
   | Ok _, MErr _ => 13
   | Err _, MOk _ _ => 14
